@@ -1,7 +1,7 @@
 (* Model/Monitor.v — C20: the monitored system as seen by pynmon, the component API as
    primitives over it, handler programs (interaction trees), and the drain-and-requeue model of
    pynmon/views/broker.py:queue_view.  Definitions only. *)
-From Coq Require Import List Bool Arith ZArith String.
+From Coq Require Import String List Bool Arith ZArith.
 Import ListNotations.
 
 Definition inv := nat.
